@@ -7,6 +7,7 @@ import (
 	"runtime"
 	"strconv"
 	"strings"
+	"time"
 )
 
 const repoPkg = "github.com/TeaEntityLab/fpGo/v2"
@@ -53,10 +54,10 @@ func Goid() int64 {
 
 // GInfo is one goroutine of a dump.
 type GInfo struct {
-	ID       int64
-	State    string
-	RepoTop  string // innermost library frame, "" if none
-	Text     string
+	ID      int64
+	State   string
+	RepoTop string // innermost library frame, "" if none
+	Text    string
 }
 
 // Dump returns all goroutines, parsed.
@@ -115,6 +116,60 @@ func ActiveRepoGoroutines(gs []GInfo) []GInfo {
 		switch g.State {
 		case "running", "runnable", "sleep", "syscall":
 			out = append(out, g)
+		}
+	}
+	return out
+}
+
+// AwaitOrStuck waits for done. It returns "done"; or "stuck" when (i) done did not happen, (ii) the
+// progress counter (hook hits at every internal loop head) did not move for the quiet period, and
+// (iii) two goroutine dumps 200 ms apart show no library goroutine that is running, runnable or
+// sleeping on a timer - i.e. nothing but an external call could change the state; or "watchdog" when
+// the hard limit expired without (ii)/(iii) (inconclusive, never a violation).
+func AwaitOrStuck(done <-chan struct{}, quiet, hard time.Duration, progress func() int64) (verdict string, dump string) {
+	start := time.Now()
+	last := progress()
+	lastChange := time.Now()
+	tick := time.NewTicker(50 * time.Millisecond)
+	defer tick.Stop()
+	for {
+		select {
+		case <-done:
+			return "done", ""
+		case <-tick.C:
+		}
+		if p := progress(); p != last {
+			last, lastChange = p, time.Now()
+		}
+		if time.Since(lastChange) >= quiet {
+			gs1, _ := Dump()
+			if len(ActiveRepoGoroutines(gs1)) == 0 {
+				time.Sleep(200 * time.Millisecond)
+				select {
+				case <-done:
+					return "done", ""
+				default:
+				}
+				gs2, txt := Dump()
+				if len(ActiveRepoGoroutines(gs2)) == 0 && progress() == last {
+					return "stuck", txt
+				}
+			}
+			lastChange = time.Now() // something is still active: keep waiting
+		}
+		if time.Since(start) > hard {
+			_, txt := Dump()
+			return "watchdog", txt
+		}
+	}
+}
+
+// RepoGoroutineSummary lists "state @ innermost library frame" for every goroutine inside the library.
+func RepoGoroutineSummary(dump string) []string {
+	var out []string
+	for _, g := range ParseDump(dump) {
+		if g.RepoTop != "" {
+			out = append(out, g.State+" @ "+g.RepoTop)
 		}
 	}
 	return out
